@@ -36,11 +36,14 @@ RULE = ("image case = (projection, H, W, CDELT, CRPIX, CRVAL, region circles/pol
         "(all four), rotation, dtype, memory layout, entry point, planes - every step judged by its own per-pixel "
         "oracle, counted per step; masked-table case = catalogue with empty (masked) coordinate cells and literal NaN, "
         "entry x input format enumerated (in-memory MaskedColumn, csv, tab, fits, votable), region covering the "
-        "position obtained by substituting 0 / the hidden value; distinct by the full case description")
+        "position obtained by substituting 0 / the hidden value; history walk also over PV2_1/PV2_2 and LONPOLE, one "
+        "header dimension per step; deep-region table = region at HEALPix depth 15/16 with rows at the centres of "
+        "pixels p + k*2^32; one image > 2^16 pixels and one table > 2^16 rows; a debug-logging slice; distinct by the "
+        "full case description")
 ASSUMPTIONS = [
     "astropy.wcs implements the FITS WCS papers: wcs_pix2world(p, origin) evaluates the transformation at the FITS "
     "coordinate p + (1 - origin) (sampled every run: origin 0 vs origin 1, and vs an independent zenithal "
-    "deprojection, 1e-9 deg)",
+    "deprojection incl. PC rotation and LONPOLE, 1e-9 deg; headers with PV terms rely on astropy alone)",
     "healpy.ang2pix(nest=True) is the pixelisation the region's pixel set refers to; Region.get_demoted() is the "
     "region's pixel set (C08)",
     "astropy.io.fits / astropy.table read back what they wrote (mask_file, mask_catalog)",
